@@ -30,6 +30,7 @@ def run(ctx, env):
     _c06.rule_template_reaches_cache(ctx, prog, an, "R4.10", only_adt="variable_versions::ipfix::IPFixParser")
     lay = Layouts(prog, an)
     ctx.rule("R5.1", "IPFIX message body = header.length saturating-minus 16; set body = header.length saturating-minus 4 (constants = wire size of the enclosing headers)")
+    ctx.rule("R5.7", "the IPFIX record loop hands bytes over as padding only when they cannot hold a record: its length guard compares the remainder with a lower bound of the record size under the template (fixed lengths + 1 per variable-length field), never with the size of the previous record")
     ctx.rule("R5.2", "set id 2 reaches Template::parse only, id 3 reaches OptionsTemplate::parse only, ids >= 255 reach neither")
     ctx.rule("R5.3", "variable-length encoding: only field_length 65535 reads a prefix; one be_u8; value 255 escapes to be_u16; otherwise the template length is used unchanged")
     ctx.rule("R5.4", "enterprise_number is parsed by cond(c, be_u32) with c equivalent to field_type_number >= 0x8000")
@@ -60,6 +61,9 @@ def run(ctx, env):
                 return None
             got = local_callees_reaching(prog, fb, r, tname)
             ctx.ob("R5.2", fb.path, "id=%d" % idv, got == want, "set id %d reaches template parsers %s, expected %s" % (idv, sorted(got), sorted(want)))
+    # R5.7
+    from . import records as _rec0
+    _rec0.record_stop_rule(ctx, prog, an, "R5.7", IP + "Data::parse_be", "ipfix-data")
     # R5.3 (role-based: the IPFIX per-field decoder and the private helpers it calls, whatever they are named)
     from . import records as _rec
     from .layout import prim_of
